@@ -14,6 +14,7 @@
 From PJ Require Import Base.Prelude Graph.Model Graph.Invariant Graph.Clone Graph.CloneCheck Graph.CloneProofs
                        Graph.CloneWF Graph.CloneIndep Graph.CloneOracle Graph.CloneIds.
 From PJ Require Graph.StepProofs.
+From PJ Require Import Graph.CloneImpl Graph.CloneImplProofs.
 Local Open Scope nat_scope.
 
 (* The tasks of the new WBS (WBS.tasks order) are new objects and correspond position by position
@@ -225,6 +226,95 @@ Example C10_example :
    forallb (fun x => memn x (side s1 0)) (named o0) = true /\ pub_args s1 o0 = true /\ snd (step s1 o0) = OK).
 Proof. vm_compute. repeat split; reflexivity. Qed.
 
+(* ---- the code-mirroring clone (Graph/CloneImpl.v) ----
+   clone_sel states the RESULT of the call.  clone_impl performs the call as wbs.py __clone / __clone_tasks does: one
+   blank Task.clone() per member, then for every member in preorder the four PUBLIC setters on its copy
+   (c.parent = .., c.children = [..], c.predecessors = [..], c.successors = [..], arguments read from the live state
+   through the dictionary cloned_tasks), then WBS() and roots = [copies of the roots]; every setter runs all its
+   validations on the intermediate state and the first one that rejects ends the call (clone() would raise).
+
+   C10_impl_accepts: on a well-formed state none of the 4 * |members| + 1 setter calls rejects (ownership, id clashes,
+   ancestors, links with ancestors, dependency cycles: every guard holds in every intermediate state). *)
+Theorem C10_impl_accepts : forall s w sel, WF s -> hid_ids s -> sel_ok s w sel ->
+  snd (clone_impl s w sel) = OK.
+Proof. exact clone_impl_accepts. Qed.
+
+(* clone(): the selection is the list of root tasks *)
+Theorem C10_impl_clone_accepts : forall s w, WF s -> hid_ids s -> w < length (wroots s) ->
+  snd (clone_impl_all s w) = OK.
+Proof. exact clone_impl_all_accepts. Qed.
+
+(* C10_impl_refines: the state after the sequence of setter calls is the state clone_sel describes.  state_sim n:
+   same WBS table, same number of objects, every object that existed before (y < n) and the new hidden root (y = n)
+   IDENTICAL - dependency lists in the same order -, every other object (the copies) equal in id, attributes, parent,
+   children IN ORDER, owner, hidden flag, and with dependency lists that are permutations of each other. *)
+Theorem C10_impl_refines : forall s w sel, WF s -> hid_ids s -> sel_ok s w sel ->
+  state_sim (length (hp s)) (fst (clone_impl s w sel)) (fst (clone_sel s w sel)).
+Proof. exact clone_impl_refines. Qed.
+
+(* the state the code-mirroring model ends in is well formed (every setter keeps WF) and keeps the root-id clause *)
+Theorem C10_impl_wf : forall s w sel, WF s -> hid_ids s -> sel_ok s w sel ->
+  WF (fst (clone_impl s w sel)) /\ hid_ids (fst (clone_impl s w sel)).
+Proof. exact clone_impl_WF_hid. Qed.
+
+(* and satisfies the declarative statement (CloneSpec compares dependency links as sets, old objects exactly) *)
+Theorem C10_impl_spec : forall s w sel, WF s -> hid_ids s -> sel_ok s w sel ->
+  let s' := fst (clone_impl s w sel) in let w' := snd (clone_sel s w sel) in
+  exists mem new,
+    members (hp s) sel = Some mem /\ wbs_tasks s' w' = Ok new /\
+    CloneSpec s w (sel_roots (hp s) sel) mem s' w' new.
+Proof. exact clone_impl_spec. Qed.
+
+(* clone_impl numbers the new objects as clone_sel does (hidden root first).  The code creates the copies first and
+   WBS() last: clone_impl_code allocates in that order.  That the two results are the same graph up to the renumbering
+   renum (identity below n, n -> n + |members|, n + 1 + i -> n + i) is not proved in general; it is checked by
+   computation on the examples below. *)
+Definition C10_impl_code_order_statement : Prop :=
+  forall s w sel mem, WF s -> hid_ids s -> sel_ok s w sel -> members (hp s) sel = Some mem ->
+    snd (clone_impl_code s w sel) = OK /\
+    renum_heap_b ctask_eqb (length (hp s)) (length mem)
+      (hp (fst (clone_impl s w sel))) (hp (fst (clone_impl_code s w sel))) = true /\
+    wroots (fst (clone_impl_code s w sel)) = wroots s ++ [length (hp s) + length mem].
+
+(* Non-vacuity.  (1) the state of C10_example: every setter call is accepted and the final state IS the state of
+   clone_sel (no dependency list is reordered there).  (2) x(id 1), b(id 2), a(id 3) roots in that order,
+   x.predecessors = [a, b]: the rebuild re-appends mirror entries, the copy of x ends with predecessors
+   [copy b, copy a] = [6; 7] (what the implementation returns: ids [2, 3]) where clone_sel says [7; 6]: equal as sets,
+   everything else identical.  Both: same graph as the allocation order of the code, through renum. *)
+Example C10_impl_example :
+  let s := mkS [ mkT EMPTY_ID None [1; 4] [] [] (Some 0) true None [] None;
+                 mkT 1 (Some 0) [2] [] [] (Some 0) false (Some 3%Z) [1%Z] None;
+                 mkT 2 (Some 1) [3] [5] [4] (Some 0) false None [2%Z] (Some 8%Z);
+                 mkT 3 (Some 2) [] [] [] (Some 0) false None [3%Z] None;
+                 mkT 4 (Some 0) [] [2] [] (Some 0) false None [4%Z] None;
+                 mkT 1 None [] [] [2] None false None [5%Z] None ] [0] in
+  let sel := [2; 1; 2] in
+  let s2 := mkS [ mkT EMPTY_ID None [1; 2; 3] [] [] (Some 0) true None [] None;
+                  mkT 1 (Some 0) [] [3; 2] [] (Some 0) false None [1%Z] None;
+                  mkT 2 (Some 0) [] [] [1] (Some 0) false None [2%Z] None;
+                  mkT 3 (Some 0) [] [] [1] (Some 0) false None [3%Z] None ] [0] in
+  (wf_b s = true /\ hid_ids_b s = true /\ sel_ok_b s 0 sel = true /\
+   snd (clone_impl s 0 sel) = OK /\ fst (clone_impl s 0 sel) = fst (clone_sel s 0 sel) /\
+   snd (clone_impl_code s 0 sel) = OK /\
+   renum_heap_b ctask_eqb 6 3 (hp (fst (clone_impl s 0 sel))) (hp (fst (clone_impl_code s 0 sel))) = true /\
+   wroots (fst (clone_impl_code s 0 sel)) = [0; 9]) /\
+  (wf_b s2 = true /\ hid_ids_b s2 = true /\ sel_ok_b s2 0 [1; 2; 3] = true /\
+   snd (clone_impl_all s2 0) = OK /\
+   fst (clone_impl_all s2 0) =
+     mkS [ mkT EMPTY_ID None [1; 2; 3] [] [] (Some 0) true None [] None;
+           mkT 1 (Some 0) [] [3; 2] [] (Some 0) false None [1%Z] None;
+           mkT 2 (Some 0) [] [] [1] (Some 0) false None [2%Z] None;
+           mkT 3 (Some 0) [] [] [1] (Some 0) false None [3%Z] None;
+           mkT EMPTY_ID None [5; 6; 7] [] [] (Some 1) true None [] None;
+           mkT 1 (Some 4) [] [6; 7] [] (Some 1) false None [1%Z] None;
+           mkT 2 (Some 4) [] [] [5] (Some 1) false None [2%Z] None;
+           mkT 3 (Some 4) [] [] [5] (Some 1) false None [3%Z] None ] [0; 4] /\
+   preds (get (hp (fst (clone s2 0))) 5) = [7; 6] /\
+   map (with_preds []) (hp (fst (clone_impl_all s2 0))) = map (with_preds []) (hp (fst (clone s2 0))) /\
+   snd (clone_impl_code s2 0 [1; 2; 3]) = OK /\
+   renum_heap_b ctask_eqb 4 3 (hp (fst (clone_impl_all s2 0))) (hp (fst (clone_impl_code s2 0 [1; 2; 3]))) = true).
+Proof. vm_compute. repeat split; reflexivity. Qed.
+
 Print Assumptions C10_faithful.
 Print Assumptions C10_clone.
 Print Assumptions C10_source.
@@ -247,3 +337,9 @@ Print Assumptions C10_indep.
 Print Assumptions C10_indep_two_wbs.
 Print Assumptions C10_frame_generic.
 Print Assumptions C10_example.
+Print Assumptions C10_impl_accepts.
+Print Assumptions C10_impl_clone_accepts.
+Print Assumptions C10_impl_refines.
+Print Assumptions C10_impl_wf.
+Print Assumptions C10_impl_spec.
+Print Assumptions C10_impl_example.
